@@ -19,18 +19,37 @@ type rq struct {
 	ch    *chain
 	peers []*downloader.VerifPeer
 	pidx  map[string]int
+	fast  bool // fast-sync mode: every block also has a (here always empty) receipt part
 }
 
 func peerName(i int) string { return fmt.Sprintf("p%d", i) }
 
-func newRQ(ch *chain, npeers int) *rq {
-	a := &rq{q: downloader.VerifNewQueue(), ch: ch, pidx: map[string]int{}}
+func newRQ(ch *chain, npeers int, fast bool) *rq {
+	a := &rq{q: downloader.VerifNewQueue(), ch: ch, pidx: map[string]int{}, fast: fast}
 	for i := 0; i < npeers; i++ {
 		a.peers = append(a.peers, downloader.VerifNewPeer(peerName(i)))
 		a.pidx[peerName(i)] = i
 	}
-	a.q.Prepare(ch.origin+1, downloader.FullSync)
+	mode := downloader.FullSync
+	if fast {
+		mode = downloader.FastSync
+	}
+	a.q.Prepare(ch.origin+1, mode)
 	return a
+}
+
+// receipts lets peer p reserve receipt fetches (fast-sync mode). Every generated header has the
+// empty receipt root, so the scheduler completes the receipt parts by itself and never hands out
+// a request; the returned string is non-empty if it did something else.
+func (a *rq) receipts(p, count int) (progress bool, problem string) {
+	req, progress, err := a.q.ReserveReceipts(a.peers[p], count)
+	if err != nil {
+		return progress, "ReserveReceipts error " + downloader.VerifErrKind(err)
+	}
+	if req != nil {
+		return progress, fmt.Sprintf("ReserveReceipts handed out %d headers although every receipt root is the empty root", len(req.Hashes))
+	}
+	return progress, ""
 }
 
 // reconnect replaces peer i by a fresh connection with the same id (empty lacking set).
@@ -125,7 +144,12 @@ func (a *rq) results(block bool) (*model.C18In, *model.C18Out, []downloader.Veri
 // Every scheduled, unreleased header must be in exactly one of {task queue, some peer's pending
 // request, done-awaiting-release}; nothing else may be anywhere. st (optional) is the model
 // state: then the place must also be the one the model says.
-func checkPools(ch *chain, snap *downloader.VerifPoolsSnapshot, nsched, released int, st *model.C18State, npeers int) *badResult {
+func checkPools(ch *chain, snap *downloader.VerifPoolsSnapshot, nsched, released int, st *model.C18State, npeers int, fast bool) *badResult {
+	// in fast-sync mode a result slot has two parts; the body part is what this check follows
+	maxPending := 1
+	if fast {
+		maxPending = 2
+	}
 	type place struct {
 		queue, pend, done, pool int
 		owner                   int
@@ -186,8 +210,24 @@ func checkPools(ch *chain, snap *downloader.VerifPoolsSnapshot, nsched, released
 			}
 		}
 	}
-	if len(snap.RTaskPool)+len(snap.RTaskQueue)+len(snap.RDone)+len(snap.RPending) != 0 {
+	if !fast && len(snap.RTaskPool)+len(snap.RTaskQueue)+len(snap.RDone)+len(snap.RPending) != 0 {
 		return &badResult{"pool-receipt-task-in-full-sync", "receipt bookkeeping is not empty in full-sync mode"}
+	}
+	if fast {
+		if len(snap.RPending) != 0 {
+			return &badResult{"pool-receipt-request-for-empty-receipts", "a receipt request is in flight although every receipt root is the empty root"}
+		}
+		for _, hs := range [][]common.Hash{snap.RTaskPool, snap.RTaskQueue, snap.RDone} {
+			for _, h := range hs {
+				id, b := look(h, "receipt bookkeeping")
+				if b != nil {
+					return b
+				}
+				if id < released || id >= nsched {
+					return &badResult{"pool-stale-task", fmt.Sprintf("header %d (block %d) is released/unscheduled but still in the receipt bookkeeping", id, ch.num(id))}
+				}
+			}
+		}
 	}
 	if want := ch.num(released); snap.ResultOffset != want {
 		return &badResult{"result-offset-wrong", fmt.Sprintf("resultOffset=%d after %d released blocks from origin %d (want %d)", snap.ResultOffset, released, ch.origin, want)}
@@ -228,13 +268,13 @@ func checkPools(ch *chain, snap *downloader.VerifPoolsSnapshot, nsched, released
 			return &badResult{"taskpool-inconsistent", fmt.Sprintf("header %d (block %d): done=%d but taskpool×%d (the task pool must hold exactly the undelivered headers)", id, ch.num(id), p.done, p.pool)}
 		}
 		s, has := slot[id]
-		if p.done == 1 && (!has || s.Pending != 0) {
+		if p.done == 1 && (!has || s.Pending > maxPending-1) {
 			return &badResult{"done-without-result", fmt.Sprintf("header %d (block %d) is marked done but its result slot is missing or incomplete (has=%v pending=%d)", id, ch.num(id), has, s.Pending)}
 		}
-		if p.pend == 1 && (!has || s.Pending != 1) {
+		if p.pend == 1 && (!has || s.Pending < 1 || s.Pending > maxPending) {
 			return &badResult{"pending-without-slot", fmt.Sprintf("header %d (block %d) is in flight but its result slot is missing or not pending (has=%v pending=%d)", id, ch.num(id), has, s.Pending)}
 		}
-		if p.queue == 1 && has && s.Pending != 1 {
+		if p.queue == 1 && has && (s.Pending < 1 || s.Pending > maxPending) {
 			return &badResult{"queued-with-complete-slot", fmt.Sprintf("header %d (block %d) is queued but its result slot is complete", id, ch.num(id))}
 		}
 		if st != nil {
